@@ -16,7 +16,7 @@ pub enum Vt {
 impl Vt {
     pub fn to_rsdd(&self) -> VTree {
         match self {
-            Vt::Leaf(v) => VTree::new_leaf(VarLabel::new(*v as u64)),
+            Vt::Leaf(v) => VTree::new_leaf(lab(*v)),
             Vt::Node(l, r) => VTree::new_node(Box::new(l.to_rsdd()), Box::new(r.to_rsdd())),
         }
     }
